@@ -448,6 +448,8 @@ def run(ctx):
     # link-map names, handle link targets and the OS version string go through the shared string helper (same instance as C16/string)
     from rules import c16
     c16.rule_string(ctx, R="C18/strings")
+    from rules import preds
+    preds.run(ctx, PROPERTY, ["auxv_is_complete"])   # "caller-supplied values first, the kernel's otherwise" needs the lookup to run whenever something is missing
     rule_stream_file_table(ctx)
     rule_meminfo(ctx)
     rule_handles(ctx)
